@@ -514,7 +514,8 @@ def corpus() -> list[tuple[str, bytes, str | None]]:
         c.append((f"nest_list_open_{depth}", b"[" * depth, None))
         c.append((f"nest_obj_closed_{depth}", b'{"a":' * depth + b"1" + b"}" * depth, None))
         c.append((f"nest_obj_open_{depth}", b'{"reason":' * depth, None))
-        c.append((f"nest_in_env_{depth}", b'{"reason":"expired_credential","detail":' + b"[" * depth + b"]" * depth + b"}", "expired_credential"))
+        # a parser that gives up on pathological nesting may degrade to "unauthorized": only the closed set is required
+        c.append((f"nest_in_env_{depth}", b'{"reason":"expired_credential","detail":' + b"[" * depth + b"]" * depth + b"}", "expired_credential" if depth <= 100 else None))
     return c
 
 
